@@ -184,7 +184,30 @@ def width_rule(model: Model, rep: Report, rule: str):
         if width is None:
             rep.fail(rule, construct, f.loc, found="channel_width not passed", required="max(1, latest end) + 1", what="figure width not derived from the schedule", detail="missing")
             continue
-        w, used, problems = resolve_extremes(p, width)
+        wpath = p
+        wv = width
+        while wv[0] == "var" and wv[3][0] not in ("list", "comp", "dict"):
+            wv = wv[3]
+        if wv[0] == "call" and isinstance(wv[1], tuple) and wv[1][0] == "fn":
+            # the width is computed by a function of the module: read that function with the arguments it is given here (defaults for the rest)
+            cands = [x for x in model.all_functions() if x.qualname == wv[1][1] and x.module is f.module]
+            if len(cands) == 1:
+                g = cands[0]
+                names = g.param_names
+                given = dict(zip(names, wv[2]))
+                given.update(dict(wv[3]))
+                a_ = g.node.args
+                pos_ = list(a_.posonlyargs) + list(a_.args)
+                dflt = dict(zip([x.arg for x in pos_][::-1], list(a_.defaults)[::-1]))
+                ev_g = Evaluator(model, inline_methods=False, opaque={"IDurationComponent.end_time"})
+                for nm in names:
+                    if nm not in given and nm in dflt:
+                        given[nm] = ev_g.expr(dflt[nm], Frame(g, g.module, {}, None, 0))
+                if set(given) == set(names):
+                    gps = [q for q in PathEnumerator(ev_g).function_paths(g, args=given) if q.exit == "return"]
+                    if len(gps) == 1 and gps[0].value is not None:
+                        wpath, width = gps[0], gps[0].value
+        w, used, problems = resolve_extremes(wpath, width)
         ext = subterms(w, lambda x: x[0] == "ext")
         ok = False
         found = "; ".join(problems) or show(w)
